@@ -359,7 +359,7 @@ def check_entry(entry):
             out.append(_viol(["C03"] if kind == "oshape" else ["C02"], kind, api, d))
         if F is None:
             return out
-        if not np.allclose(F, M, **tol):
+        if not core.allclose(F, M, **tol):
             out.append(_viol({"H": ["C01"], "N": ["C04"]}.get(api["k"], ["C03"]), "forward_matrix", api, "dense matrix differs from the documented matrix expression; max |diff| = %.3g" % np.abs(F - M).max()))
         # C01: adjoint
         try:
@@ -370,11 +370,11 @@ def check_entry(entry):
                 G, dfs = linop_build.dense(AH)
                 for kind, d in dfs:
                     out.append(_viol(["C01"] if kind == "oshape" else ["C02"], "adjoint_" + kind, api, d))
-                if G is not None and not np.allclose(G, F.conj().T, **tol):
+                if G is not None and not core.allclose(G, F.conj().T, **tol):
                     out.append(_viol(["C01"], "adjoint_matrix", api, "<Ax,y> != <x,A^H y>: dense(A.H) differs from dense(A)^H; max |diff| = %.3g" % np.abs(G - F.conj().T).max()))
                 AHH = AH.H
                 G2, dfs = linop_build.dense(AHH, check_i=False)
-                if G2 is None or not np.allclose(G2, F, **tol):
+                if G2 is None or not core.allclose(G2, F, **tol):
                     out.append(_viol(["C01"], "adjoint_involution", api, "A.H.H does not act like A"))
         except Exception as e:
             out.append(_viol(["C01"], "adjoint_raises", api, "taking / applying A.H raised %r / %r" % (e, getattr(e, "__cause__", None))))
@@ -382,7 +382,7 @@ def check_entry(entry):
         try:
             AN = A.N
             Nn, dfs = linop_build.dense(AN, check_i=False)
-            if Nn is None or not np.allclose(Nn, F.conj().T @ F, **tol):
+            if Nn is None or not core.allclose(Nn, F.conj().T @ F, **tol):
                 out.append(_viol(["C04"], "normal_matrix", api, "A.N differs from A^H A; max |diff| = %.3g" % (np.abs(Nn - F.conj().T @ F).max() if Nn is not None else -1)))
         except Exception as e:
             out.append(_viol(["C04"], "normal_raises", api, "taking / applying A.N raised %r / %r" % (e, getattr(e, "__cause__", None))))
@@ -393,7 +393,7 @@ def check_entry(entry):
                 out.append(_viol(["C02"], "nondeterministic", api, "same operator, equal input, different output after .H/.N were taken"))
             lhs = np.asarray(A(a * x + y)).ravel()
             rhs = a * np.asarray(A(x)).ravel() + np.asarray(A(y)).ravel()
-            if not np.allclose(lhs, rhs, **tol) or not np.allclose(lhs, M @ (a * x + y).ravel(), **tol):
+            if not core.allclose(lhs, rhs, **tol) or not core.allclose(lhs, M @ (a * x + y).ravel(), **tol):
                 out.append(_viol(["C02"], "nonlinear", api, "A(a x + y) != a A(x) + A(y) for a = 2-3i"))
             for c0, c1 in zip(cap0, b.captured):
                 if not np.array_equal(c0, c1):
@@ -402,7 +402,7 @@ def check_entry(entry):
             xr0 = xr.copy()
             try:
                 yr = np.asarray(A(xr)).ravel()
-                ok = np.allclose(yr, M @ xr.ravel(), **tol)
+                ok = core.allclose(yr, M @ xr.ravel(), **tol)
             except Exception:
                 ok = True  # an exception for real-typed input is not a wrong answer
             if not ok:
@@ -417,7 +417,7 @@ def check_entry(entry):
                     cf = linop_build.Builder(sp).build(c_api)
                     nin = int(np.prod(co.ishape)) if len(co.ishape) else 1
                     xin = (rng.randint(-3, 4, nin) + 1j * rng.randint(-3, 4, nin)).astype(np.complex128).reshape(co.ishape)
-                    if list(co.oshape) != list(cf.oshape) or not np.allclose(np.asarray(co(xin.copy())), np.asarray(cf(xin.copy())), **tol):
+                    if list(co.oshape) != list(cf.oshape) or not core.allclose(np.asarray(co(xin.copy())), np.asarray(cf(xin.copy())), **tol):
                         out.append(_viol(["C02"], "operand_changed", api, "after %s was built from it, the operand %s no longer acts like a fresh copy of itself" % (api["k"], api_summary(c_api)[:120])))
             except Exception as e:
                 out.append(_viol(["C02"], "reapply_raises", api, "re-application of an operand after the construction raised %r" % (e,)))
@@ -430,10 +430,10 @@ def check_entry(entry):
                 except Exception:
                     pass  # an exception for real-typed input is not a wrong answer (see real_input_wrong above)
                 y2 = np.asarray(A2(x.copy())).ravel()
-                if not np.allclose(y2, M @ x.ravel(), **tol):
+                if not core.allclose(y2, M @ x.ravel(), **tol):
                     out.append(_viol(["C02"], "history_dependent", api, "a fresh operator applied to a real array and then to a complex one: the second result differs from the matrix action (state kept from the first application)"))
                 y3 = np.asarray(A2(x.astype(np.complex64))).ravel()
-                if not np.allclose(y3, M @ x.ravel(), atol=1e-4 * max(1.0, float(np.abs(M @ x.ravel()).max())), rtol=1e-4):
+                if not core.allclose(y3, M @ x.ravel(), atol=1e-4 * max(1.0, float(np.abs(M @ x.ravel()).max())), rtol=1e-4):
                     out.append(_viol(["C02"], "history_dependent", api, "the same operator applied to a complex64 array afterwards differs from the matrix action"))
             except Exception as e:
                 out.append(_viol(["C02"], "reapply_raises", api, "application of a fresh operator to real then complex input raised %r" % (e,)))
@@ -446,7 +446,7 @@ def check_entry(entry):
                 for lab, xv in (("Fortran-ordered", xf), ("strided", xs_)):
                     xv0 = xv.copy()
                     yv = np.asarray(A(xv)).ravel()
-                    if not np.allclose(yv, M @ x.ravel(), **tol):
+                    if not core.allclose(yv, M @ x.ravel(), **tol):
                         out.append(_viol(["C02"], "layout_dependent", api, "%s input: result differs from the matrix action" % lab))
                     if not np.array_equal(xv, xv0):
                         out.append(_viol(["C02"], "mutated", api, "%s input mutated" % lab))
@@ -562,7 +562,7 @@ def extreme_scalars():
                     out.append({"props": ["C03"], "key": {"kind": "extreme_scalar", "operator": name, "case": label}, "detail": "%s with %s raised %r" % (label, name, e)})
                     continue
                 want = base * factor if factor is not None else base * 1e-300 - base * 1e50
-                if not np.all(np.isfinite(y)) or not np.allclose(y, want, rtol=1e-12, atol=0):
+                if not np.all(np.isfinite(y)) or not core.allclose(y, want, rtol=1e-12, atol=0):
                     out.append({"props": ["C03"], "key": {"kind": "extreme_scalar", "operator": name, "case": label},
                                 "detail": "%s with A = %s: got %s, the matrix expression applied step by step gives %s" % (label, name, y, want)})
     return out
